@@ -178,7 +178,30 @@ def _run_isolated(cid, seed, todo, nthreads):
                 out.append(dict(ok=False, sig="%s/crash" % cid, msg="the code under test killed the process: %s %s" % (what, err1[-200:]),
                                 nontrivial=True))
         if not found:
-            return gi, None, "group crashed in the pool but not in isolation (rc=%s): %s" % (rc, err)
+            # no single case kills the process, the group as a whole did: the crash depends on what ran before inside the
+            # group.  Find the shortest crashing prefix (bisection; a longer prefix of a crashing prefix crashes too).
+            lo, hi = 1, len(cases)  # prefix lengths: lo-1 known good (single cases pass), hi = whole group (crashed)
+            r_hi, rc_hi, err_hi = _group_subprocess(cid, seed, cases, timeout)
+            if r_hi is not None:
+                return gi, None, "group crashed in the pool and once in isolation but not when run again (rc=%s): %s" % (rc, err)
+            good = None
+            while lo < hi:
+                mid = (lo + hi) // 2
+                r_m, rc_m, err_m = _group_subprocess(cid, seed, cases[:mid], timeout)
+                if r_m is None and rc_m != 2:
+                    hi = mid
+                else:
+                    lo = mid + 1
+                    good = r_m
+            k = hi - 1  # cases[:k] run through, case k dies after them
+            if good is None or len(good) < k:
+                good, _, _ = _group_subprocess(cid, seed, cases[:k], timeout) if k else ([], 0, "")
+            if good is None:
+                return gi, None, "crashing prefix of the group is not stable (rc=%s): %s" % (rc, err)
+            out = list(good[:k])
+            out.append(dict(ok=False, sig="%s/crash" % cid, nontrivial=True,
+                            msg="the code under test killed the process (status %s) when this case ran after the %d cases before it in its group" % (rc_hi, k)))
+            out += [dict(ok=True, skipped="not run: an earlier case of this group crashed the process")] * (len(cases) - k - 1)
         return gi, out, None
 
     with ThreadPoolExecutor(max_workers=nthreads) as tp:
